@@ -183,6 +183,9 @@ FaceHandle TopologyKernel::add_face(std::vector<HalfEdgeHandle> _halfedges, bool
 
     // Perform topology check
     if(_topologyCheck) {
+        if (_halfedges.empty()) {
+            return InvalidFaceHandle;
+        }
         for (size_t i = 0; i + 1< _halfedges.size(); ++i) {
             if (to_vertex_handle(_halfedges[i]) != from_vertex_handle(_halfedges[i+1])) {
                 return InvalidFaceHandle;
@@ -391,6 +394,10 @@ CellHandle TopologyKernel::add_cell(std::vector<HalfFaceHandle> _halffaces, bool
 
 
     if(_topologyCheck) {
+
+        if (_halffaces.empty()) {
+            return InvalidCellHandle;
+        }
 
         /*
          * We test the following necessary properties for a closed 2-manifold cell:
